@@ -61,6 +61,9 @@ func (s Script) String() string {
 		for _, e := range t {
 			es = append(es, e.String())
 		}
+		if len(es) > 40 {
+			es = append(append(append([]string{}, es[:6]...), fmt.Sprintf("... (%d events in all) ...", len(es))), es[len(es)-6:]...)
+		}
 		ts = append(ts, strings.Join(es, " "))
 	}
 	return fmt.Sprintf("pool=%d idle=%v %s", s.Pool, s.Idle, strings.Join(ts, " || "))
